@@ -703,6 +703,26 @@ impl BytecodeInterpreter {
     }
 }
 
+/// Read-only accessors for the `verif` hooks.
+#[cfg(feature = "verif")]
+impl BytecodeInterpreter {
+    /// The raw (unsimplified) value in the stack slot of the innermost global binding `name`.
+    pub(crate) fn verif_global(&self, name: &str) -> Option<&Value> {
+        let position = self.locals[0]
+            .iter()
+            .rposition(|l| l.identifiers.iter().any(|n| n == name))?;
+        self.vm.verif_stack().get(position)
+    }
+
+    pub(crate) fn verif_num_globals(&self) -> usize {
+        self.locals[0].len()
+    }
+
+    pub(crate) fn verif_vm(&self) -> &Vm {
+        &self.vm
+    }
+}
+
 impl Interpreter for BytecodeInterpreter {
     fn new() -> Self {
         Self {
